@@ -79,6 +79,19 @@ PROPS = {
     ),
 }
 
+# premises of assumed contracts on dependencies (vx/premise.py): checked on the extracted text every run, never counted as proved
+_SERDE_STRUCTS = [
+    ("src/state/packed.rs", "PackedState"), ("src/state/potential.rs", "PotentialState"), ("src/cell.rs", "CrystalFamily"),
+    ("src/cell.rs", "Cell2"), ("src/site.rs", "OccupiedSite"), ("src/wallpaper.rs", "Wallpaper"), ("src/wallpaper.rs", "WyckoffSite"),
+    ("src/transform.rs", "Transform2"), ("src/shape/line_shape.rs", "LineShape"), ("src/shape/lj_shape.rs", "LJShape2"),
+    ("src/shape/molecular_shape2.rs", "MolecularShape2"), ("src/shape/components/atom2.rs", "Atom2"),
+    ("src/shape/components/line2.rs", "Line2"), ("src/shape/components/lj2.rs", "LJ2"),
+]
+PREMISES = {}
+for _f, _s in _SERDE_STRUCTS:
+    PREMISES["serde-plain:%s" % _s] = dict(kind="serde-plain", file=_f, struct=_s, props=["C11"], oracle="serde_roundtrip")
+
+
 NOT_APPLICABLE = {
     "C09": "quantifies over thread schedules and interleavings of the rayon pipeline; Kani has no thread support and Verus would need the code rewritten onto its permission types, so no contract within reach can express or decide schedule independence or the soundness of `unsafe impl Sync for SharedValue` (the sequential ingredients — clone isolation, seed plumbing, optimiser frame — are proved under C10/C06)",
 }
@@ -301,12 +314,15 @@ for _n, _s in [("k_parse_reject_one", "x"), ("k_parse_reject_three", "x,y,z")]:
                     what="the string \"%s\" is reported as an error, no panic" % _s)
 
 PROPS["C11"] = dict(
-    level="other", units=["geom"], kani=["k_serde_f64"], lemmas=[],
-    explanation="Scope: hand-written glue only. Kani proves for all bit patterns that SharedValue's custom Serialize emits exactly one f64 with the cell's bits (no narrowing) and that Deserialize rebuilds a cell with exactly the visited value "
+    level="other", units=["geom"], kani=["k_serde_f64"], lemmas=[], premises=sorted(PREMISES),
+    explanation="Scope: hand-written glue, plus the hypothesis of the one assumed dependency contract. Kani proves for all bit patterns that SharedValue's custom Serialize emits exactly one f64 with the cell's bits (no narrowing) and that Deserialize rebuilds a cell with exactly the visited value "
                 "(probe Serializer/Deserializer). Verus proves that Transform2::as_svg passes the six matrix entries to the `matrix(a b c d e f)` format string in SVG's column-major order (m00 m10 m01 m11 m02 m12) "
-                "and that Into<Matrix3> returns the transform's own matrix.",
-    assumptions=_GEOM_ASSUMPTIONS[:1] + ["serde derive calls Serialize::serialize of each field once, in order (derive-generated code is not verified)"],
-    undecided=["derive-generated Serialize/Deserialize of states, cells, sites, shapes (e.g. a #[serde(skip)] on a field) — macro-generated code, no contract within reach",
+                "and that Into<Matrix3> returns the transform's own matrix. "
+                "The derive-generated Serialize/Deserialize of the 14 state/cell/site/shape structs is ASSUMED (not verified) to write and read every field when the struct carries both derives and no #[serde(..)] attribute; "
+                "that hypothesis is checked on the struct text extracted from the working tree on every run (premises, counted separately, never as proved obligations). When it stops holding the assumed contract no longer applies: "
+                "the native round-trip oracle (replay/witness.rs::serde_roundtrip: 7 groups x 6 shapes x 40 parameter vectors, Debug rendering / copies / score before and after JSON) is run and a violation is reported only with the failing input it finds; otherwise undecided.",
+    assumptions=_GEOM_ASSUMPTIONS[:1] + ["serde derive on a struct with both derives and no #[serde(..)] attribute serialises every field under its own name and deserialises every field (derive-generated code is not verified; the hypothesis on the struct text is checked every run)"],
+    undecided=["the derive-generated code itself (macro output, no contract within reach): only the hypothesis of its assumed contract is checked",
                "decimal printing/parsing inside serde_json (an independent seeding agent observed 1-ulp differences on the pinned serde_json 1.0.57 without float_roundtrip: 'identical score' holds only to ~1e-16 relative)",
                "the svg crate and the state-level as_svg loops (which placements and images are drawn)"],
 )
